@@ -109,6 +109,25 @@ def origin_str(o):
 
 
 def run_verus_unit(unit, work, seed=None, extra_smt=None):
+    # dev sweeps (tools/harmless_sweep.py) run many properties against ONE scratch tree: the verdict of a unit does not depend on
+    # the property, so it is computed once per tree. Never set by the registered commands.
+    cdir = os.environ.get('VERIF_DEV_UNIT_CACHE')
+    if cdir and seed is None:
+        import pickle
+        cp = os.path.join(cdir, unit + '.pkl')
+        if os.path.exists(cp):
+            with open(cp, 'rb') as fh:
+                return pickle.load(fh)
+        r = _run_verus_unit(unit, work, seed)
+        os.makedirs(cdir, exist_ok=True)
+        with open(cp + '.tmp', 'wb') as fh:
+            pickle.dump(r, fh)
+        os.replace(cp + '.tmp', cp)
+        return r
+    return _run_verus_unit(unit, work, seed)
+
+
+def _run_verus_unit(unit, work, seed=None):
     # a function whose body uses a construct Verus cannot take is retried as external_body (contract kept, body
     # undecided -> only a natively replayed counterexample can raise an alarm for it)
     force = set()
@@ -424,6 +443,10 @@ def decide(prop, cfg, tier, seed, work, args, t0):
     # ---- Kani jobs -------------------------------------------------------------------------
     bounded_checks = []
     kani_jobs = [k for k in cfg.get('kani', []) if tier == 'thorough' or k.get('tier', 'quick') == 'quick']
+    dev_skip_jobs = bool(os.environ.get('VERIF_DEV_SKIP_JOBS'))   # dev sweeps only: Verus / Python obligations alone
+    if dev_skip_jobs:
+        kani_jobs = []
+        print("  [dev] VERIF_DEV_SKIP_JOBS: Kani and native jobs skipped")
     kres = None
     if kani_jobs:
         kres = kanirun.run_jobs(prop, kani_jobs, work, tier)
@@ -446,7 +469,7 @@ def decide(prop, cfg, tier, seed, work, args, t0):
 
     # ---- native exhaustive enumerations (bounded stand-ins for functions outside both verifiers) ----------------------
     for job in cfg.get('native', []):
-        if tier != 'thorough' and job.get('tier', 'quick') != 'quick':
+        if dev_skip_jobs or (tier != 'thorough' and job.get('tier', 'quick') != 'quick'):
             continue
         scratch = kanirun.make_scratch(work)
         kanirun.weave(scratch, job['files'])
